@@ -18,7 +18,25 @@ def main():
         import replay
         sys.exit(replay.run(a.pid, a.replay))
     mod = importlib.import_module("checks." + a.pid.lower())
-    rc = mod.run(tier, seed, replay=a.replay)
+    try:
+        rc = mod.run(tier, seed, replay=a.replay)
+    except Exception as ex:
+        # the harness itself could not run against the code as it is now (an instrumentation point - a module attribute it wraps, an
+        # internal signature it calls - no longer exists): the correspondence is broken, the property is no longer shown to hold
+        import traceback, json, time
+        tb = traceback.format_exc()
+        os.makedirs(common.REPLAYS, exist_ok=True)
+        path = os.path.join(common.REPLAYS, "%s-harness-%s.json" % (a.pid, common.sha([a.pid, type(ex).__name__, str(ex)[:200]])))
+        json.dump({"property": a.pid, "key": "correspondence broken: the check could not be run against the current code (%s)" % type(ex).__name__,
+                   "failing_input_found": False, "replay": {"exception": type(ex).__name__, "message": str(ex)[:500], "traceback": tb[-3000:],
+                   "what_no_longer_checks": "the model/implementation correspondence of %s (instrumentation or internal entry point missing or changed)" % a.pid}}, open(path, "w"), indent=1)
+        print("VIOLATION property=%s replay=%s no-failing-input-found" % (a.pid, path))
+        try:
+            common.write_evidence(a.pid, tier, seed, {"obligations": 0, "discharged": 0, "checker_cmd": "./check %s" % a.pid, "trusted_base": common.TRUSTED_BASE,
+                                  "harness_error": "%s: %s" % (type(ex).__name__, str(ex)[:300])}, 0.0, 1, common.TRUSTED_BASE)
+        except Exception:
+            pass
+        rc = 1
     print("%s tier=%s seed=%d exit=%d" % (a.pid, tier, seed, rc))
     sys.exit(rc)
 
